@@ -104,6 +104,11 @@ Proof.
   destruct (str_in (p_str p) sp); reflexivity.
 Qed.
 
+(** moduleloader.get_module: a plain import attempt each time, against whatever sys.path is now *)
+Theorem gen_get_module_is_model e sp m :
+  gen_get_module (find_module e sp) m = get_module e sp m.
+Proof. reflexivity. Qed.
+
 (** ** load_pipeline_from_file / get_pipeline_definition = the model's file loader *)
 Lemma gen_load_pipeline_from_file_is_model e path st :
   gen_load_pipeline_from_file dirname basename (add_sys_path e) path st =
